@@ -504,6 +504,38 @@ def gen_io_units():
 
 
 EXTRA.append(("IOUnits.v", ["C05", "C06", "C08", "C09", "C10", "C11", "C13", "C14", "C15", "C16", "C17", "C18"], gen_io_units))
+# ---- declared defaults of every option of every class (C13: "defaults leave the mesh unchanged"; C15: KS parameter; ...) -------------
+def gen_option_defaults():
+    root = os.path.join(REPO, "openaerostruct")
+    files = []
+    for d, _, fs in os.walk(root):
+        for f in fs:
+            if f.endswith(".py"):
+                rel = os.path.relpath(os.path.join(d, f), REPO)
+                if not any(rel.startswith(x) for x in RAISE_EXCLUDE):
+                    files.append(rel)
+    rows = []
+    for rel in sorted(files):
+        t, src = tree(rel)
+        for cls in [n for n in ast.walk(t) if isinstance(n, ast.ClassDef)]:
+            for call in [n for n in ast.walk(cls) if isinstance(n, ast.Call) and isinstance(n.func, ast.Attribute) and n.func.attr == "declare"
+                         and isinstance(n.func.value, ast.Attribute) and n.func.value.attr == "options"]:
+                name = ast.unparse(call.args[0]) if call.args else next((ast.unparse(k.value) for k in call.keywords if k.arg == "name"), "?")
+                if len(call.args) > 1:
+                    default = ast.unparse(call.args[1])
+                else:
+                    default = next((ast.unparse(k.value) for k in call.keywords if k.arg == "default"), "(required)")
+                rows.append((rel.replace("openaerostruct/", ""), cls.name, name, default))
+
+    def q(x):
+        return '"' + x.replace('"', '""') + '"'
+    body = ";\n".join("  (%s, %s, %s, %s)" % tuple(q(x) for x in r) for r in rows)
+    return ("(* GENERATED by harness/translate.py - do not edit: every options.declare of every class of the package with its default,\n   as source text (\"(required)\" = no default) *)\n"
+            "From Coq Require Import String List.\nImport ListNotations.\nOpen Scope string_scope.\n"
+            "Definition gen_option_defaults : list (string * string * string * string) := [\n%s\n].\n" % body)
+
+
+EXTRA.append(("OptionDefaults.v", ["C05", "C09", "C11", "C13", "C14", "C15", "C16", "C19"], gen_option_defaults))
 EXTRA.append(("RaiseSites.v", ["C20"], gen_raise_sites))
 
 
